@@ -43,6 +43,7 @@ def run(prog, R):
     s2s = R.anchor(prog, S2S + "stmt_to_asg_stmt")
     if not s2s:
         return
+    R.premises(prog, "C07.0-symbol-table-premise", ["C19:"], "lexical scoping is argued from the translator's scope discipline on top of a symbol table that behaves as a stack of scopes")
     # ---- C07.2 bodies translated inside a fresh scope of the right kind
     want_kind = {"IfStmt": "Local", "WhileStmt": "Local", "ForStmt": "Local", "SwitchCaseStmt": "Local", "Gate": "Subroutine", "Def": "Subroutine"}
     n = 0
